@@ -51,13 +51,20 @@ def rich_tree(C, rng):
 
 
 # unknown to every aggregate - including names that happen to be attributes of the model classes or of list
-UNKNOWN = ["FOO", "INTU.BID", "INTU.AGG", "XYZZY", "A.B", "COUNT", "INDEX", "APPEND", "SORT", "SPEC", "GROOM", "ELEMENTS", "COPY", "TO_ETREE", "STATEMENTS", "TRANSACTIONS"]
+UNKNOWN = ["FOO", "INTU.BID", "INTU.AGG", "XYZZY", "A.B", "COUNT", "INDEX", "APPEND", "SORT", "SPEC", "GROOM", "ELEMENTS", "COPY", "TO_ETREE", "STATEMENTS", "TRANSACTIONS",
+           # tags no model class is named after (an unknown aggregate must be skipped, not looked up) and tags outside
+           # the parser's tag alphabet (hyphen, lower case): vendors use them, the library has always let them pass
+           "FIEXTRAS", "SESSIONFLAGS", "X-FI-REF", "intu.bid", "Vendor_Ext"]
 
 
 def unknown_child(rng, C):
     u = ET.Element(rng.choice(UNKNOWN))
     r = rng.random()
-    if r < 0.4:
+    if any(ch not in "ABCDEFGHIJKLMNOPQRSTUVWXYZ0123456789._" for ch in u.tag):
+        # not an OFX tag at all (outside A-Z 0-9 . _): as a data element it has always been let through; as an
+        # aggregate it is outside the wire syntax the properties speak about (C02), so it is only used as a leaf
+        u.text = "z"
+    elif r < 0.4:
         u.text = "z"
     elif r < 0.8:
         # an unknown aggregate with arbitrary, even otherwise-known, content
@@ -89,13 +96,38 @@ def conv(tree):
         return Aggregate.from_etree(tree)
 
 
+def sgml_of(e):
+    """an SGML rendering: data elements without end tags, aggregates (also empty ones) with"""
+    if len(e) == 0 and e.text:
+        from xml.sax.saxutils import escape
+        return f"<{e.tag}>{escape(e.text)}\n"
+    return f"<{e.tag}>\n" + "".join(sgml_of(c) for c in e) + f"</{e.tag}>\n"
+
+
+def through_the_parser(text):
+    from ofxtools.Parser import TreeBuilder
+    b = TreeBuilder()
+    b.feed(text)
+    return b.close()
+
+
 def call_insertions(it, fn, a):
     base = conv(ET.fromstring(a[0]))
-    try:
-        ins = conv(ET.fromstring(a[1]))
-    except Exception as ex:
-        return ("rejected", repr(ex))
-    return ("same" if canon(base) == canon(ins) else "different", canon(ins))
+    problems = []
+    routes = [("element tree", lambda: ET.fromstring(a[1])),
+              # (the library's own XML form: empty elements as <TAG></TAG>; the self-closing spelling <TAG/> is not OFX)
+              ("XML rendering through the parser", lambda: through_the_parser(ET.tostring(ET.fromstring(a[1]), encoding="unicode", method="html"))),
+              ("SGML rendering through the parser", lambda: through_the_parser(sgml_of(ET.fromstring(a[1]))))]
+    last = None
+    for name, mk in routes:
+        try:
+            ins = conv(mk())
+        except Exception as ex:
+            return ("rejected", f"{name}: {ex!r}")
+        last = canon(ins)
+        if canon(base) != last:
+            return ("different", f"{name}: {last!r}")
+    return ("same", last)
 
 
 def gen_sequence(rng):
@@ -161,7 +193,7 @@ CONTRACTS = [
              call=call_insertions, gen=gen_insertions,
              ensures=[("C07-never-rejected-never-changed", "result[0] == 'same'")],
              native_only=True, samples=400,
-             notes="random valid trees of random classes (C13 witness constructor) with 1-3 unknown / vendor-prefixed data elements, empty elements or aggregates inserted at random positions",
+             notes="random valid trees of random classes (C13 witness constructor) with 1-3 unknown / vendor-prefixed data elements, empty elements or aggregates inserted at random positions; converted from the element tree and from its XML and SGML renderings through the parser",
              props=["C07"]),
     Contract("ofxtools.models.base:Aggregate._convert", args=[TreeArg("root")],
              call=call_sequence, gen=gen_sequence,
